@@ -397,6 +397,9 @@ func runSolver(sp solverSpec, query string, timeoutS int, tag string) (status, o
 
 var keepQueries bool
 
+// noRetry disables the extended-budget retry of undecided obligations (VF_NORETRY=1; used when hunting mutants quickly).
+var noRetry = os.Getenv("VF_NORETRY") != ""
+
 // Solve runs the portfolio sequentially: first solver that answers decisively wins.
 func Solve(o *Obligation, timeoutS int, confirm bool) *Result {
 	r := &Result{Ob: o}
@@ -436,6 +439,46 @@ func Solve(o *Obligation, timeoutS int, confirm bool) *Result {
 		}
 		r.Status = st
 		r.Solver = sp.name
+	}
+	if want == "unsat" && (r.Status == "timeout" || r.Status == "unknown") && !noRetry {
+		// Undecided within the ordinary budget.  Before this is reported, give the obligation a longer budget with three
+		// differently seeded runs side by side: solver run time on quantified goals varies with declaration order and
+		// seed, and an obligation near the budget must not turn into an alarm on code where it holds.
+		ext := 4 * timeoutS
+		if ext < 30 {
+			ext = 30
+		}
+		if ext > 120 {
+			ext = 120
+		}
+		type rr struct {
+			st, out, tag string
+			secs         float64
+		}
+		ch := make(chan rr, 3)
+		for k := 1; k <= 3; k++ {
+			k := k
+			sp := solverSpec{"z3-new", func(f string, t int) []string {
+				return []string{"z3-new", fmt.Sprintf("smt.random_seed=%d", k*17), fmt.Sprintf("sat.random_seed=%d", k*17), fmt.Sprintf("-T:%d", t), f}
+			}}
+			go func() {
+				st, out, secs := runSolver(sp, query, ext, fmt.Sprintf("%s.retry%d", o.Name, k))
+				ch <- rr{st, out, fmt.Sprintf("retry%d/z3-new", k), secs}
+			}()
+		}
+		for k := 0; k < 3; k++ {
+			x := <-ch
+			r.Tried = append(r.Tried, fmt.Sprintf("%s:%s:%.2fs", x.tag, x.st, x.secs))
+			if x.secs > r.Seconds {
+				r.Seconds = x.secs
+			}
+			if (x.st == "unsat" || x.st == "sat") && r.Status != "unsat" && r.Status != "sat" {
+				r.Status, r.Solver, r.Output = x.st, "z3-new", x.out
+				if x.st == "sat" {
+					r.Model = parseModel(x.out)
+				}
+			}
+		}
 	}
 	if want == "unsat" && r.Status != "unsat" && (r.Status != "sat" || len(r.Model) == 0) && len(o.GetVals) > 0 {
 		// no counter-model (quantifiers): look for a *candidate* input in the relaxation without quantified
